@@ -301,6 +301,7 @@ func c15MakeExporter(t *testing.T, r *c15Recv, k c15ExpKey) *c15Exp {
 		cfg.QueueConfig.Enabled = false
 		cfg.RetryConfig.Enabled = false
 		cfg.ClientConfig.Endpoint = r.grpcAddr
+		cfg.TimeoutConfig.Timeout = c15Patience // default 5 s: a wall-clock effect on a loaded machine, not a property of the hop
 		cfg.ClientConfig.TLSSetting = configtls.ClientConfig{Insecure: true}
 		cfg.ClientConfig.Compression = configcompression.Type(k.comp)
 		cfg.ClientConfig.Headers = headers
@@ -329,6 +330,7 @@ func c15MakeExporter(t *testing.T, r *c15Recv, k c15ExpKey) *c15Exp {
 		cfg.QueueConfig.Enabled = false
 		cfg.RetryConfig.Enabled = false
 		cfg.ClientConfig.Endpoint = "http://" + r.httpAddr
+		cfg.ClientConfig.Timeout = c15Patience // default 30 s
 		cfg.ClientConfig.Compression = configcompression.Type(k.comp)
 		if k.lvl != 0 {
 			cfg.ClientConfig.CompressionParams = configcompression.CompressionParams{Level: configcompression.Level(k.lvl)}
@@ -422,6 +424,38 @@ func (o c15Outcome) err() error {
 		return consumererror.NewPermanent(fmt.Errorf("wrapped: %w", e))
 	}
 	return e
+}
+
+// c15Patience: every wall-clock limit of the harness (client timeouts, context deadlines). Generous on purpose: on a loaded machine a
+// slow loopback exchange is not a violation; a hang still ends the test.
+const c15Patience = 120 * time.Second
+
+// c15TransportFailure: did the export fail in the CLIENT's transport (no answer of the server was classified)? OTLP/HTTP: the error
+// carries no gRPC status (every answered request yields one via statusutil); OTLP/gRPC: deadline / Unavailable / Canceled, which the
+// client transport produces itself - the caller additionally checks that the server side has no record of the request.
+func c15TransportFailure(tr string, err error) bool {
+	if err == nil {
+		return false
+	}
+	if errors.Is(err, context.DeadlineExceeded) || errors.Is(err, context.Canceled) {
+		return true
+	}
+	st, ok := status.FromError(err)
+	if tr == "http" {
+		return !ok
+	}
+	return ok && (st.Code() == codes.Unavailable || st.Code() == codes.DeadlineExceeded || st.Code() == codes.Canceled)
+}
+
+func (s *c15Sink) has(b []byte) bool {
+	s.mu.Lock()
+	defer s.mu.Unlock()
+	for _, x := range s.all {
+		if bytes.Equal(x, b) {
+			return true
+		}
+	}
+	return false
 }
 
 var c15Delays = []time.Duration{0, 1, 500 * time.Millisecond, 999999999, time.Second, 1500 * time.Millisecond, 2 * time.Second, 90 * time.Second}
@@ -539,7 +573,7 @@ func (c15RawCodec) Name() string                  { return "proto" }
 var _ encoding.Codec = c15RawCodec{}
 
 func c15ProbeGrpc(r *c15Recv, sig string, body []byte, good bool) (code uint32, ri string) {
-	ctx, cancel := context.WithTimeout(context.Background(), 10*time.Second)
+	ctx, cancel := context.WithTimeout(context.Background(), c15Patience)
 	defer cancel()
 	if good {
 		ctx = metadata.AppendToOutgoingContext(ctx, "authorization", "c15-secret")
@@ -582,7 +616,7 @@ func c15XConn(r *c15Recv) *grpc.ClientConn {
 	return c
 }
 
-var c15HTTPClient = &http.Client{Timeout: 10 * time.Second}
+var c15HTTPClient = &http.Client{Timeout: c15Patience}
 
 func c15ProbeHTTP(r *c15Recv, method, path, ctype, cenc string, body []byte, good bool) (st int, ra string, bodyCode int) {
 	req, err := http.NewRequest(method, "http://"+r.httpAddr+path, bytes.NewReader(body))
@@ -795,6 +829,7 @@ func c15Conc(t *testing.T, out *vOut, r *c15Recv, exps map[c15ExpKey]*c15Exp, ci
 		e      *c15Exp
 		want   [][]byte
 		errs   []error
+		tries  []int // attempts per request (> 1: earlier attempts failed in the client transport with no server-side record)
 		series int
 	}
 	// schedule exploration: with few Ps the receiver's handler goroutines are time-sliced on the same P (a handler that is
@@ -840,30 +875,47 @@ func c15Conc(t *testing.T, out *vOut, r *c15Recv, exps map[c15ExpKey]*c15Exp, ci
 			for n := 0; n < j.series; n++ {
 				// make this request's payload unique and self-describing, then remember exactly what is sent
 				tag := fmt.Sprintf("conc-%d-%d-%d", ci, i, n)
-				ctx, cancel := context.WithTimeout(context.Background(), 60*time.Second)
 				var err error
 				var want []byte
 				switch j.p.sig {
 				case "logs":
 					j.p.logs.ResourceLogs().At(0).Resource().Attributes().PutStr("c15.tag", tag)
 					want, _ = (&plog.ProtoMarshaler{}).MarshalLogs(j.p.logs)
-					err = j.e.logs.ConsumeLogs(ctx, j.p.logs)
 				case "traces":
 					j.p.tr.ResourceSpans().At(0).Resource().Attributes().PutStr("c15.tag", tag)
 					want, _ = (&ptrace.ProtoMarshaler{}).MarshalTraces(j.p.tr)
-					err = j.e.traces.ConsumeTraces(ctx, j.p.tr)
 				case "profiles":
 					j.p.pr.ResourceProfiles().At(0).Resource().Attributes().PutStr("c15.tag", tag)
 					want, _ = (&pprofile.ProtoMarshaler{}).MarshalProfiles(j.p.pr)
-					err = j.e.prof.ConsumeProfiles(ctx, j.p.pr)
 				default:
 					j.p.m.ResourceMetrics().At(0).Resource().Attributes().PutStr("c15.tag", tag)
 					want, _ = (&pmetric.ProtoMarshaler{}).MarshalMetrics(j.p.m)
-					err = j.e.metrics.ConsumeMetrics(ctx, j.p.m)
 				}
-				cancel()
+				tries := 0
+				for {
+					tries++
+					ctx, cancel := context.WithTimeout(context.Background(), c15Patience)
+					switch j.p.sig {
+					case "logs":
+						err = j.e.logs.ConsumeLogs(ctx, j.p.logs)
+					case "traces":
+						err = j.e.traces.ConsumeTraces(ctx, j.p.tr)
+					case "profiles":
+						err = j.e.prof.ConsumeProfiles(ctx, j.p.pr)
+					default:
+						err = j.e.metrics.ConsumeMetrics(ctx, j.p.m)
+					}
+					cancel()
+					// a failure of the client's transport (deadline, reset, EOF, …) of a request the server side has NO record of is a
+					// wall-clock / loopback effect of a loaded machine: sent again, up to 3 times. Anything the server saw and did not
+					// acknowledge, any answer of the server, and anything still failing afterwards stays a violation.
+					if err == nil || tries > 3 || !c15TransportFailure(j.key.tr, err) || r.sink.has(want) {
+						break
+					}
+				}
 				j.want = append(j.want, want)
 				j.errs = append(j.errs, err)
+				j.tries = append(j.tries, tries)
 			}
 		}(i, j)
 	}
@@ -879,7 +931,8 @@ func c15Conc(t *testing.T, out *vOut, r *c15Recv, exps map[c15ExpKey]*c15Exp, ci
 	// … and two more that post a big body that is NOT a protobuf message (cheap for the receiver: it must answer 400 without
 	// touching the consumer), so they come around even faster
 	junk := bytes.Repeat([]byte{0xff}, 8<<20+rnd.IntN(4<<20))
-	swarmClient := &http.Client{Timeout: 60 * time.Second, Transport: &http.Transport{MaxIdleConnsPerHost: 16}}
+	swarmClient := &http.Client{Timeout: c15Patience, Transport: &http.Transport{MaxIdleConnsPerHost: 16}}
+	swarmRetries := 0
 	for w := 0; w < 6; w++ {
 		swg.Add(1)
 		go func(isJunk bool) {
@@ -897,9 +950,20 @@ func c15Conc(t *testing.T, out *vOut, r *c15Recv, exps map[c15ExpKey]*c15Exp, ci
 				if isJunk {
 					body, wantStatus = junk, http.StatusBadRequest
 				}
-				req, _ := http.NewRequest(http.MethodPost, "http://"+r.httpAddr+"/v1/logs", bytes.NewReader(body))
-				req.Header.Set("Content-Type", "application/x-protobuf")
-				resp, err := swarmClient.Do(req)
+				var resp *http.Response
+				var err error
+				for try := 1; ; try++ {
+					req, _ := http.NewRequest(http.MethodPost, "http://"+r.httpAddr+"/v1/logs", bytes.NewReader(body))
+					req.Header.Set("Content-Type", "application/x-protobuf")
+					resp, err = swarmClient.Do(req)
+					if err == nil || try > 3 {
+						break
+					}
+					// no HTTP answer at all: a transport-level failure of the plain client; sent again
+					smu.Lock()
+					swarmRetries++
+					smu.Unlock()
+				}
 				ok := false
 				if err == nil {
 					_, _ = io.Copy(io.Discard, resp.Body)
@@ -938,7 +1002,11 @@ func c15Conc(t *testing.T, out *vOut, r *c15Recv, exps map[c15ExpKey]*c15Exp, ci
 	}
 	out.Linef("op conc k=%d", total)
 	acked := swarmAcked
-	want := map[string]int{string(swarmP.want): swarmSent}
+	// a request that was sent again may have reached the consumer more than once (an attempt whose answer got lost): allowed, and
+	// not counted twice below
+	want := map[string]int{string(swarmP.want): swarmSent + swarmRetries}
+	logical := map[string]int{string(swarmP.want): swarmSent}
+	transportRetries := swarmRetries
 	if junkRejected != junkSent {
 		out.Linef("viol sig=C15/concurrency/malformed-request-not-rejected-with-400 sent=%d rejected=%d", junkSent, junkRejected)
 	}
@@ -954,20 +1022,30 @@ func c15Conc(t *testing.T, out *vOut, r *c15Recv, exps map[c15ExpKey]*c15Exp, ci
 				out.Linef("viol sig=C15/concurrency/well-formed-request-not-acknowledged sender=%d request=%d tr=%s enc=%s comp=%s verdict=%s", i, n, j.key.tr, j.key.enc, j.key.comp, c15Verdict(err))
 			}
 		}
-		for _, w := range j.want {
-			want[string(w)]++
+		for n, w := range j.want {
+			want[string(w)] += j.tries[n]
+			logical[string(w)]++
+			transportRetries += j.tries[n] - 1
 		}
 	}
-	matched := 0
+	matched, seenCnt := 0, map[string]int{}
 	for _, g := range got {
 		if want[string(g)] > 0 {
 			want[string(g)]--
 			matched++
+			seenCnt[string(g)]++
 		} else {
 			out.Linef("viol sig=C15/concurrency/payload-at-consumer-is-not-one-that-was-sent got=%d bytes", len(g))
 		}
 	}
-	out.Linef("obs conc sent=%d acked=%d delivered=%d matched=%d", total, acked, len(got), matched)
+	dup := 0 // deliveries of re-sent requests beyond the one the model counts
+	for k, c := range seenCnt {
+		if c > logical[k] {
+			dup += c - logical[k]
+		}
+	}
+	out.Linef("stat conc_transport_retry %d", transportRetries)
+	out.Linef("obs conc sent=%d acked=%d delivered=%d matched=%d", total, acked, len(got)-dup, matched-dup)
 	out.Linef("stat conc_cases 1")
 	out.Linef("stat conc_requests %d", total)
 	out.Linef("stat conc_gomaxprocs_%d 1", procs)
@@ -1219,7 +1297,7 @@ func TestVerifC15(t *testing.T) {
 		r.sink.set(c.out.err())
 		before, _ = r.sink.snapshot()
 		var err error
-		ctx, cancel := context.WithTimeout(context.Background(), 20*time.Second)
+		ctx, cancel := context.WithTimeout(context.Background(), c15Patience)
 		switch c.sig {
 		case "logs":
 			err = e.logs.ConsumeLogs(ctx, p.logs)
@@ -1386,7 +1464,7 @@ func c15Raw(out *vOut, r *c15Recv, c c15Case, good bool, rnd interface{ IntN(int
 				method = c15Methods["logs"]
 			}
 		}
-		ctx, cancel := context.WithTimeout(context.Background(), 10*time.Second)
+		ctx, cancel := context.WithTimeout(context.Background(), c15Patience)
 		if good {
 			ctx = metadata.AppendToOutgoingContext(ctx, "authorization", "c15-secret")
 		}
